@@ -121,7 +121,8 @@ def vi : P String := do
   let v : Verdict := { tag := (if m.S ≤ 1 && m.A ≤ 1 then "trivial " else "") ++ (if useTol then "vi_tol" else "vi_dp") ++ (if warmUsed then " warm" else "")
                               ++ (if capped then " capped" else "") ++ (if illc then " illcond" else "") ++ " " ++ c.repName }
   -- L2b: model vs implementation
-  let v := v.diffIf (!nodiff && !(eqNum c out.variation iVar)) s!"{comp} variation model={ratStr out.variation} impl={ratStr iVar}"
+  -- the variation is a difference of two value vectors: in inexact mode its rounding error is relative to the values, not to itself
+  let v := v.diffIf (!nodiff && !(eqNum c out.variation iVar) && (c.exact || decide (sl < absR (out.variation - iVar)))) s!"{comp} variation model={ratStr out.variation} impl={ratStr iVar}"
   let v := v.diffIf (!nodiff && !(eqVec c m.S out.vf.values iV)) s!"{comp} values model={showVec out.vf.values} impl={showVec iV}"
   let v := v.diffIf (!nodiff && !(eqMat c m.S m.A out.q iQ)) s!"{comp} q"
   let wellc := c.exact || allLt m.S (fun s => rowWellCond m.A (out.q.get s) sl)
@@ -189,7 +190,7 @@ def pe : P String := do
   let comp := "PolicyEvaluation"
   let v : Verdict := { tag := (if m.S ≤ 1 && m.A ≤ 1 then "trivial " else "") ++ (if useTol then "pe_tol" else "pe_dp") ++ (if warmUsed then " warm" else "")
                               ++ (if capped then " capped" else "") ++ (if illc then " illcond" else "") ++ " " ++ c.repName }
-  let v := v.diffIf (!nodiff && !(eqNum c out.variation iVar)) s!"{comp} variation model={ratStr out.variation} impl={ratStr iVar}"
+  let v := v.diffIf (!nodiff && !(eqNum c out.variation iVar) && (c.exact || decide (sl < absR (out.variation - iVar)))) s!"{comp} variation model={ratStr out.variation} impl={ratStr iVar}"
   let v := v.diffIf (!nodiff && !(eqVec c m.S out.v iV)) s!"{comp} values model={showVec out.v} impl={showVec iV}"
   let v := v.diffIf (!nodiff && !(eqMat c m.S m.A out.q iQ)) s!"{comp} q"
   let stepped := h > 0
@@ -300,11 +301,15 @@ def agree : P String := do
   let k := 1 / (1 - m.γ)
   let comp := "Agreement"
   let v : Verdict := { tag := (if m.S ≤ 1 && m.A ≤ 1 then "trivial " else "") ++ "agree " ++ c.repName }
-  let v := v.failIf (!(checkClose m.S vVI.get vPI.get ((bVI + bPI) * k))) s!"{comp} vi_pi_values"
+  -- a disagreement of PolicyIteration that the as-found tie scan explains (its greedy matrix on the returned Q is not a distribution,
+  -- finding C01-3) carries its own kind, so that the finding cannot mask any other disagreement
+  let coh := checkValidPi m (greedyPolicy m.S m.A qPI).get
+  let sfx := if coh then "" else "_greedy_row_not_distribution"
   let v := v.failIf (!(checkClose m.S vVI.get vLP.get ((bVI + bLP) * k))) s!"{comp} vi_lp_values"
-  let v := v.failIf (!(checkClose m.S vPI.get vLP.get ((bPI + bLP) * k))) s!"{comp} pi_lp_values"
+  let v := v.failIf (!(checkClose m.S vVI.get vPI.get ((bVI + bPI) * k))) (if coh then s!"{comp} vi_pi_values" else s!"{comp} pi_values{sfx}")
+  let v := v.failIf (!(checkClose m.S vPI.get vLP.get ((bPI + bLP) * k))) (if coh then s!"{comp} pi_lp_values" else s!"{comp} pi_values{sfx}")
   -- the VI action is near-greedy for the other solvers' Q (ties allowed)
-  let v := v.failIf (!(checkGreedy m.S m.A qPI.get (natAt aVI) (2 * (tolVI + bVI + bPI) * k))) s!"{comp} vi_action_not_greedy_for_pi"
+  let v := v.failIf (!(checkGreedy m.S m.A qPI.get (natAt aVI) (2 * (tolVI + bVI + bPI) * k))) (if coh then s!"{comp} vi_action_not_greedy_for_pi" else s!"{comp} pi_values{sfx}")
   let v := v.failIf (!(checkGreedy m.S m.A qLP.get (natAt aVI) (2 * (tolVI + bVI + bLP) * k))) s!"{comp} vi_action_not_greedy_for_lp"
   return v.render
 
